@@ -228,6 +228,15 @@ func AssertionCase(c *Case) M {
 	assertion := buildAssertion(a, now)
 	o := M{}
 	rej := func(detail string) M { return M{"v": "reject", "identity": "none", "detail": detail} }
+	priorAssertion := ""
+	if S(c.C, "prior") == "otherClient" {
+		// a fitting assertion of the client the observed assertion does NOT name as issuer, accepted immediately before
+		other := M{"iss": "B", "sub": "iss", "aud": "issuer", "exp": 3600, "iat": -3, "by": "b1", "kid": "kb1", "alg": "ES256", "edit": "none"}
+		if S(a, "iss") == "B" {
+			other = M{"iss": "A", "sub": "iss", "aud": "issuer", "exp": 3600, "iat": -3, "by": "a2", "kid": "ka2", "alg": "ES256", "edit": "none"}
+		}
+		priorAssertion = buildAssertion(other, now)
+	}
 	// ---- direct: op.VerifyJWTAssertion with the case's configuration
 	{
 		var opts []op.JWTProfileVerifierOption
@@ -237,6 +246,9 @@ func AssertionCase(c *Case) M {
 		v := op.NewJWTProfileVerifier(w.store, opdrv.Issuer, time.Duration(I(cfg, "maxAge"))*time.Second, time.Duration(I(cfg, "offset"))*time.Second, opts...)
 		var req *oidc.JWTTokenRequest
 		var err error
+		if priorAssertion != "" {
+			CatchPanic(func() { op.VerifyJWTAssertion(context.Background(), priorAssertion, v) })
+		}
 		if p := CatchPanic(func() { req, err = op.VerifyJWTAssertion(context.Background(), assertion, v) }); p != "" {
 			o["verify"] = M{"v": "panic", "identity": "none", "detail": p}
 		} else if err != nil {
@@ -259,6 +271,9 @@ func AssertionCase(c *Case) M {
 	for _, router := range []string{"P", "L"} {
 		h := w.h[router]
 		// ---- grant_type=jwt-bearer
+		if priorAssertion != "" {
+			postForm(h, "/oauth/token", url.Values{"grant_type": {string(oidc.GrantTypeBearer)}, "assertion": {priorAssertion}, "scope": {"openid"}})
+		}
 		form := url.Values{"grant_type": {string(oidc.GrantTypeBearer)}, "assertion": {assertion}, "scope": {"openid"}}
 		r := postForm(h, "/oauth/token", form)
 		o["bearer"+router] = tokenOutcome(w, r)
